@@ -797,6 +797,9 @@ class Consumer(object):
         )
 
     def _handle_auto_commit_error(self, failure):
+        if self._stopping and failure.check(CancelledError):
+            # Not really an error
+            return
         if self._start_d is not None and not self._start_d.called:
             self._start_d.errback(failure)
 
